@@ -110,6 +110,26 @@ pub fn run(run: &mut Run) {
             }
         }
     }
+    // contiguous small ranges in all three types (mid-range defects: tables, truncating casts, digit-count fast paths)
+    let dn: i64 = if thorough { 2100 } else { 300 };
+    for x in -dn..=dn {
+        if !is.contains(&x) {
+            is.push(x);
+        }
+    }
+    for x in 0..=(2 * dn as u64) {
+        if !us.contains(&x) {
+            us.push(x);
+        }
+    }
+    // every multiple of 1/8 in the range (exactly representable fractions), and of 1/10 (not representable)
+    for k in (-8 * dn / 2)..=(8 * dn / 2) {
+        for f in [k as f64 / 8.0, k as f64 / 10.0] {
+            if !ds.iter().any(|y| y.to_bits() == f.to_bits()) {
+                ds.push(f);
+            }
+        }
+    }
     let empty = Context::default();
 
     // ---------------- literals
@@ -184,6 +204,17 @@ pub fn run(run: &mut Run) {
     let texts = ["", "a", "é", "😀", "a\0b", "0", "-1", "9223372036854775807", "9223372036854775808", "-9223372036854775808", "18446744073709551615", "18446744073709551616", "1.5", "1e3", "abc", " 1", "1 ", "+1", "0x10", "NaN", "inf", "-inf", "1e309", "-0"];
     for s in texts {
         args.push(MV::s(s));
+    }
+    // decimal texts of a contiguous range and of the boundary sets (string -> number conversions)
+    let tn: i64 = if thorough { 1200 } else { 130 };
+    for x in -tn..=tn {
+        args.push(MV::s(&x.to_string()));
+    }
+    for &x in i64_boundary(true).iter() {
+        args.push(MV::s(&x.to_string()));
+    }
+    for &x in u64_boundary(true).iter() {
+        args.push(MV::s(&x.to_string()));
     }
     run.sub("conversions");
     for a in &args {
